@@ -233,9 +233,12 @@ func handleExceptionSignal(vm *r.VM, blockModule *r.Module, blockDepth int, catc
 			// do execution (with "this" value = exception value)
 			_, err := evalPureStmtBlock(vm, catchBlockItem.StmtBlock)
 			if err == nil {
-				// get return value from exception block
+				// get return value from exception block (空 when the block has no 输出)
 				rtnValue := vm.GetReturnValue()
 				vm.PopCallFrame()
+				if rtnValue == nil {
+					return value.NewNull(), nil
+				}
 
 				return rtnValue, nil
 			}
